@@ -375,3 +375,37 @@ theorem sparse_row (A : Adj) (L1 L2 : List Nat) (i : Nat) (hi : i < L1.length) (
     getD_append_left L1 L2 i hi]
 
 end Pyunicorn.Cross
+
+namespace Pyunicorn.Cross
+
+theorem foldl_count1 (l : List Nat) (p : Nat → Bool) (c : Nat) :
+    l.foldl (fun c k => if p k then c + 1 else c) c = c + (l.map fun k => b2n (p k)).sum := by
+  induction l generalizing c with
+  | nil => simp
+  | cons k t ih =>
+    rw [List.foldl_cons, ih]
+    simp only [List.map_cons, List.sum_cons, b2n]
+    cases p k <;> simp <;> omega
+
+theorem foldl_add1 (l : List Nat) (f : Nat → Nat) (c : Nat) :
+    l.foldl (fun c j => c + f j) c = c + (l.map f).sum := by
+  induction l generalizing c with
+  | nil => simp
+  | cons k t ih =>
+    rw [List.foldl_cons, ih]
+    simp only [List.map_cons, List.sum_cons]
+    omega
+
+/-- one row `i` of the positional loops of `cross_local_clustering_sparse` -/
+theorem sparse_clc_row (A : Adj) (L1 L2 : List Nat) (i : Nat) (hi : i < L1.length) :
+    (List.range' L1.length L2.length).foldl (fun c j =>
+        (List.range' L1.length (j - L1.length)).foldl (fun c k =>
+          if catAdj A L1 L2 i j && catAdj A L1 L2 j k && catAdj A L1 L2 k i then c + 1 else c) c) 0
+      = pairSum (fun y x => b2n (A (L1.getD i 0) y && A y x && A x (L1.getD i 0))) L2 := by
+  simp only [foldl_count1]
+  rw [foldl_add1]
+  rw [← posPairSum_eq]
+  simp only [posPairSum, sum_range'_shift, Nat.add_sub_cancel_left, catAdj, getD_append_right,
+    getD_append_left L1 L2 i hi, Nat.zero_add]
+
+end Pyunicorn.Cross
